@@ -81,4 +81,9 @@ def pair_insts(ctx, rid: str, only=None) -> List[R.Inst]:
         else:
             n = sum(1 for v in tf[0].values() if v not in EMPTY)
             insts.append(R.ok(rid, key, file, fnode.node.lineno, idiom=f"{back}({fwd}(k)) = k for the {n} keys of {fwd}"))
+    for i in insts:
+        cn = i.key.split(".")[0]
+        for cls, fwd, back, _, _ in PAIRS:
+            if cls.endswith("." + cn):
+                i.reach = (f"{cls}.{fwd}", f"{cls}.{back}")
     return insts
